@@ -100,6 +100,16 @@ void RetireList<T, D>::retire(T* data) {
   }
   do {
     node->next = get_node(head);
+    // The head carries the timestamp for the whole list. A thread delayed
+    // after reading the clock must not put an older timestamp on top of nodes
+    // retired later, or they would be treated as cooled down too early
+    auto head_timestamp = get_timestamp(head);
+    if (node->next != nullptr &&
+        static_cast<int16_t>(head_timestamp - timestamp) > 0) {
+      new_head = make_head(node, head_timestamp);
+    } else {
+      new_head = make_head(node, timestamp);
+    }
   } while (!_head.compare_exchange_weak(head, new_head,
                                         ::std::memory_order_acq_rel));
 }
